@@ -1,0 +1,55 @@
+//go:build verif
+
+// Contracts for the verification machinery in /verif (comment-only; excluded from normal builds).
+// Property C24. Mode bv.
+//
+// bt_sem(e, ok) is the Boolean value of constraint tree e under the tag assignment ok. It is DEFINED by the
+// four equations below (structural recursion over the tree): a tag is what the assignment says, !X negates,
+// && and || are conjunction and disjunction. Every Eval method is proved to compute its equation, with the
+// sub-trees evaluated through the interface contract, so Eval(e, ok) == bt_sem(e, ok) for every tree.
+// The parser and printer of constraint lines (recursive descent over strings with panic/recover) are outside
+// the verifier's subset: Parse is assumed (trusted).
+
+package buildtag
+
+//@ spec (declare-fun bt_sem (Int Int Int) Bool)
+
+// ghost record of the last Eval made through the interface (used by the loader's contract)
+//@ ghost g_evals int
+//@ ghost g_eval_result bool
+//@ ghost g_eval_ok int
+
+//@ iface Expr.Eval
+//@   ensures result == bt_sem(recv, ok)
+//@   sets g_evals = old(g_evals) + 1
+//@   sets g_eval_result = result
+//@   modifies g_evals, g_eval_result
+
+//@ func (*TagExpr).Eval
+//@   requires x != nil
+//@   ensures[sem] result == apply(ok, x.Tag)
+//@   property C24
+
+//@ func (*NotExpr).Eval
+//@   requires x != nil
+//@   ensures[sem] result == !bt_sem(x.X, ok)
+//@   modifies g_evals, g_eval_result
+//@   property C24
+
+//@ func (*AndExpr).Eval
+//@   requires x != nil
+//@   ensures[sem] result == (bt_sem(x.X, ok) && bt_sem(x.Y, ok))
+//@   modifies g_evals, g_eval_result
+//@   property C24
+
+//@ func (*OrExpr).Eval
+//@   requires x != nil
+//@   ensures[sem] result == (bt_sem(x.X, ok) || bt_sem(x.Y, ok))
+//@   modifies g_evals, g_eval_result
+//@   property C24
+
+//@ func Parse
+//@   trusted
+//@ func IsWaBuild
+//@   trusted
+//@   pure
